@@ -132,6 +132,48 @@ struct Feat {
     adds_ok: usize,        // successful additions of new block entries since the start archive
     ops: BTreeSet<String>, // op kinds that returned Ok so far
     last_writer: BTreeMap<String, String>, // normalised name -> kind of the op that last defined its content/key
+    // history-level structural trigger predicates ("taints"): once true, the archive may be damaged in ways that
+    // are not attributable to a single name, so every later violation of this history carries the predicate
+    v3plus_modified: bool,          // a mutating op succeeded on a V3/V4 archive
+    compact_without_listfile: bool, // compact succeeded on an archive that has no (listfile)
+    compact_on_stale_view: bool,    // compact succeeded in a session in which a mutation had succeeded before
+    table_growth_over_slack: bool,  // block-table growth since build/compact exceeds the slack before appended data
+    mutated_in_session: bool,
+    appended_blocks: usize,
+    slack_bytes: usize,
+}
+
+impl Feat {
+    fn taint(&self) -> Option<&'static str> {
+        if self.v3plus_modified {
+            Some("v3plus-after-modification")
+        } else if self.compact_without_listfile {
+            Some("compact-without-listfile")
+        } else if self.compact_on_stale_view {
+            Some("compact-after-modification-in-session")
+        } else if self.table_growth_over_slack {
+            Some("block-table-growth-over-slack")
+        } else {
+            None
+        }
+    }
+    /// name-level predicate: the content was last defined by renaming an encrypted file
+    fn name_pred(&self, lw: &str) -> Option<&'static str> {
+        if lw.starts_with("rename-of(") && (lw.contains("enc") || lw.contains("fixkey") || lw.contains("seed-enc")) {
+            Some("rename-of-encrypted-file")
+        } else {
+            None
+        }
+    }
+    fn sig(&self, family: &str, version: u8, lw: &str, tail: &str) -> String {
+        if let Some(t) = self.taint() {
+            format!("{family}|{t}")
+        } else if let Some(p) = self.name_pred(lw) {
+            format!("{family}|{p}")
+        } else {
+            format!("{family}|v{version}|last={lw}|{tail}")
+        }
+    }
 }
 
 fn reopen_check(c: &mut Case, path: &Path, st: &Start, model: &BTreeMap<String, Vec<u8>>, ever: &BTreeSet<String>, feat: &Feat, when: &str) {
@@ -148,7 +190,7 @@ fn reopen_check(c: &mut Case, path: &Path, st: &Start, model: &BTreeMap<String, 
     let mut ar = match trap(|| Archive::open(path)) {
         Ok(Ok(a)) => a,
         Ok(Err(e)) => {
-            c.violate(format!("reopen-open-failed|v{}|ops={}|{}", st.version, ops_sig(feat), err_key(&e.to_string())), format!("Archive::open failed after the history ({when}): {e}"), json!({"start": st.class()}));
+            c.violate(feat.sig("reopen-open-failed", st.version, "-", &format!("ops={}|{}", ops_sig(feat), err_key(&e.to_string()))), format!("Archive::open failed after the history ({when}): {e}"), json!({"start": st.class()}));
             return;
         }
         Err(p) => {
@@ -158,11 +200,11 @@ fn reopen_check(c: &mut Case, path: &Path, st: &Start, model: &BTreeMap<String, 
     };
     for (n, want) in model {
         c.count("reopen_reads", 1);
-        let lw = feat.last_writer.get(n).cloned().unwrap_or_else(|| "seed".into());
+        let lw = feat.last_writer.get(n).cloned().unwrap_or_else(|| if n == "SEED\\ENC.BIN" { "seed-enc".to_string() } else { "seed".to_string() });
         match trap(|| ar.read_file(n)) {
             Err(p) => c.violate(format!("reopen-read-panic|v{}|last={lw}|{}", st.version, p.sig()), format!("read_file({:?}) panicked after reopen: {}", n, p.msg), json!({})),
             Ok(Err(e)) => c.violate(
-                format!("reopen-read-error|v{}|last={lw}|ops={}|{}", st.version, ops_sig(feat), err_key(&e.to_string())),
+                feat.sig("reopen-read-error", st.version, &lw, &format!("ops={}|{}", ops_sig(feat), if e.to_string().contains("not found") { "not-found" } else { "other" })),
                 format!("after reopen ({when}) read_file({:?}) fails: {e}; the model holds {} bytes (last defined by {lw})", n, want.len()),
                 json!({"name": n, "want": brief(want)}),
             ),
@@ -171,7 +213,7 @@ fn reopen_check(c: &mut Case, path: &Path, st: &Start, model: &BTreeMap<String, 
                     let fd = first_diff(&got, want);
                     let shape = if got.len() != want.len() { "len" } else { "bytes" };
                     c.violate(
-                        format!("reopen-content|v{}|last={lw}|ops={}|{shape}", st.version, ops_sig(feat)),
+                        feat.sig("reopen-content", st.version, &lw, &format!("ops={}|{shape}", ops_sig(feat))),
                         format!("after reopen ({when}) read_file({:?}) returns {} bytes, model has {}; first difference at {fd} (last defined by {lw})", n, got.len(), want.len()),
                         json!({"name": n, "want": brief(want), "got": brief(&got)}),
                     );
@@ -185,7 +227,7 @@ fn reopen_check(c: &mut Case, path: &Path, st: &Start, model: &BTreeMap<String, 
         }
         c.count("reopen_absent_checks", 1);
         match trap(|| ar.read_file(n)) {
-            Ok(Ok(d)) => c.violate(format!("reopen-removed-name-readable|v{}|ops={}", st.version, ops_sig(feat)), format!("after reopen ({when}) {:?} is readable ({} bytes) although the model does not contain it", n, d.len()), json!({"name": n})),
+            Ok(Ok(d)) => c.violate(feat.sig("reopen-removed-name-readable", st.version, "-", &format!("ops={}", ops_sig(feat))), format!("after reopen ({when}) {:?} is readable ({} bytes) although the model does not contain it", n, d.len()), json!({"name": n})),
             Ok(Err(_)) => {}
             Err(p) => c.violate(format!("reopen-read-panic|v{}|absent|{}", st.version, p.sig()), format!("read_file({:?}) panicked: {}", n, p.msg), json!({})),
         }
@@ -197,14 +239,27 @@ fn reopen_check(c: &mut Case, path: &Path, st: &Start, model: &BTreeMap<String, 
                 for n in model.keys() {
                     c.count("reopen_list_checks", 1);
                     if !got.contains(n) {
-                        c.violate(format!("reopen-list-missing|v{}|ops={}", st.version, ops_sig(feat)), format!("after reopen ({when}) list() lacks {:?} which the model contains", n), json!({"listed": got.iter().take(12).collect::<Vec<_>>()}));
+                        c.violate(feat.sig("reopen-list-missing", st.version, "-", &format!("ops={}", ops_sig(feat))), format!("after reopen ({when}) list() lacks {:?} which the model contains", n), json!({"listed": got.iter().take(12).collect::<Vec<_>>()}));
                         break;
                     }
                 }
             }
-            Ok(Err(e)) => c.violate(format!("reopen-list-error|v{}|ops={}", st.version, ops_sig(feat)), format!("list() fails after reopen: {e}"), json!({})),
+            Ok(Err(e)) => c.violate(feat.sig("reopen-list-error", st.version, "-", &format!("ops={}", ops_sig(feat))), format!("list() fails after reopen: {e}"), json!({})),
             Err(p) => c.violate(format!("reopen-list-panic|v{}|{}", st.version, p.sig()), format!("list() panicked: {}", p.msg), json!({})),
         }
+    }
+}
+
+/// Bytes between the end of the tables and the next 512-byte boundary where appended data starts: the block table
+/// is rewritten in place, so it can grow by this much before it runs into appended file data.
+fn measure_slack(path: &Path) -> usize {
+    match Archive::open(path) {
+        Ok(a) => {
+            let h = a.header();
+            let end = (a.archive_offset() + h.get_block_table_pos() + h.block_table_size as u64 * 16).max(a.archive_offset() + h.get_hash_table_pos() + h.hash_table_size as u64 * 16);
+            ((512 - (end % 512)) % 512) as usize
+        }
+        Err(_) => 0,
     }
 }
 
@@ -239,6 +294,7 @@ fn run_history(c: &mut Case, st: &Start, ops: &[Op], names: &[String], dir: &Pat
     };
     let mut ever: BTreeSet<String> = model.keys().cloned().collect();
     let mut feat = Feat::default();
+    feat.slack_bytes = measure_slack(&path);
     let mut uid = idx * 1000;
     let mut ma = match MutableArchive::open(&path) {
         Ok(m) => Some(m),
@@ -256,10 +312,11 @@ fn run_history(c: &mut Case, st: &Start, ops: &[Op], names: &[String], dir: &Pat
             if !c.viol.is_empty() {
                 break;
             }
+            feat.mutated_in_session = false;
             match MutableArchive::open(&path) {
                 Ok(m) => ma = Some(m),
                 Err(e) => {
-                    c.violate(format!("mutable-open-failed-after-history|v{}|{}", st.version, err_key(&e.to_string())), format!("MutableArchive::open failed after op {k}: {e}"), json!({}));
+                    c.violate(feat.sig("mutable-open-failed-after-history", st.version, "-", &err_key(&e.to_string())), format!("MutableArchive::open failed after op {k}: {e}"), json!({}));
                     return;
                 }
             }
@@ -310,7 +367,7 @@ fn run_history(c: &mut Case, st: &Start, ops: &[Op], names: &[String], dir: &Pat
                         c.count("unexpected_ok|rename-onto-existing", 1);
                     } else {
                         let v = model.remove(&kf).unwrap();
-                        let lw = feat.last_writer.remove(&kf).unwrap_or_else(|| "seed".into());
+                        let lw = feat.last_writer.remove(&kf).unwrap_or_else(|| if kf == "SEED\\ENC.BIN" { "seed-enc".into() } else { "seed".into() });
                         model.insert(kt.clone(), v);
                         feat.last_writer.insert(kt.clone(), format!("rename-of({lw})"));
                         ever.insert(kt);
@@ -338,19 +395,45 @@ fn run_history(c: &mut Case, st: &Start, ops: &[Op], names: &[String], dir: &Pat
             Ok(Ok(())) => {
                 feat.ops.insert(kind.clone());
                 c.count("ops_ok", 1);
+                let mutating = matches!(op, Op::Add { .. } | Op::Remove { .. } | Op::Rename { .. });
+                if mutating && st.version >= 3 {
+                    feat.v3plus_modified = true;
+                }
+                if let Op::Compact = op {
+                    if !st.listfile {
+                        feat.compact_without_listfile = true;
+                    }
+                    if feat.mutated_in_session {
+                        feat.compact_on_stale_view = true;
+                    }
+                    // compaction rebuilds the archive: growth restarts, slack is re-measured
+                    feat.appended_blocks = 0;
+                    feat.slack_bytes = measure_slack(&path);
+                    feat.mutated_in_session = false;
+                }
+                if mutating {
+                    feat.mutated_in_session = true;
+                }
+                if let Op::Add { .. } = op {
+                    // every successful add appends one block entry (replacing a user file orphans the old one)
+                    feat.appended_blocks += 1;
+                    if feat.appended_blocks * 16 > feat.slack_bytes {
+                        feat.table_growth_over_slack = true;
+                    }
+                }
             }
         }
-        // read-your-writes through the mutable handle (separate clause)
+        // read-your-writes through the mutable handle: NOT part of the statement (which speaks of the state after
+        // close + reopen); observed and counted only
         if k + 1 == ops.len() || matches!(ops.get(k + 1), Some(Op::Reopen)) {
             let m = ma.as_mut().unwrap();
             for (n, want) in &model {
                 c.count("ryw_reads", 1);
-                let lw = feat.last_writer.get(n).cloned().unwrap_or_else(|| "seed".into());
                 match trap(|| m.read_file(n)) {
-                    Ok(Ok(got)) if &got == want => {}
-                    Ok(Ok(_)) => c.violate(format!("ryw-content|v{}|last={lw}", st.version), format!("MutableArchive::read_file({:?}) before reopen differs from the model (last defined by {lw})", n), json!({})),
-                    Ok(Err(e)) => c.violate(format!("ryw-error|v{}|last={lw}|{}", st.version, err_key(&e.to_string())), format!("MutableArchive::read_file({:?}) before reopen fails: {e}", n), json!({})),
-                    Err(p) => c.violate(format!("ryw-panic|v{}|{}", st.version, p.sig()), format!("MutableArchive::read_file panicked: {}", p.msg), json!({})),
+                    Ok(Ok(got)) if &got == want => c.count("ryw_agree", 1),
+                    Ok(Ok(_)) => c.count("ryw_stale_or_wrong", 1),
+                    Ok(Err(_)) => c.count("ryw_error", 1),
+                    Err(_) => c.count("ryw_panic", 1),
                 }
             }
         }
